@@ -142,10 +142,10 @@ impl UnitSearchDirsBuilder {
     }
 
     pub(crate) fn build_from_system(self) -> UnitSearchDirs {
-        let resolved_unit_dir_admin_user = Self::resolve_unit_dir_admin_user();
-        let user_level_filter = get_user_level_filter_func(resolved_unit_dir_admin_user.clone());
-
         if self.rootless {
+            let resolved_unit_dir_admin_user = Self::resolve_unit_dir_admin_user();
+            let user_level_filter =
+                get_user_level_filter_func(resolved_unit_dir_admin_user.clone());
             let system_user_dir_level = resolved_unit_dir_admin_user.components().count();
             let non_numeric_filter = get_non_numeric_filter_func(
                 resolved_unit_dir_admin_user.clone(),
@@ -154,6 +154,13 @@ impl UnitSearchDirsBuilder {
 
             return UnitSearchDirs(self.get_rootless_dirs(&non_numeric_filter, &user_level_filter));
         }
+
+        // The system generator walks `UNIT_DIR_ADMIN` itself and meets the per-user directory as
+        // `users` directly below the directory that walk starts from (i.e. what `UNIT_DIR_ADMIN`
+        // links to, if it is a link), whether or not `users` is a link, too.
+        let unit_dir_admin = PathBuf::from(UNIT_DIR_ADMIN);
+        let walked_unit_dir_admin = Self::resolve_search_dir(&unit_dir_admin).unwrap_or(unit_dir_admin);
+        let user_level_filter = get_user_level_filter_func(walked_unit_dir_admin.join("users"));
 
         UnitSearchDirs(self.get_root_dirs(&user_level_filter))
     }
@@ -236,24 +243,30 @@ impl UnitSearchDirsBuilder {
         }
     }
 
+    /// The directory a walk of the search directory `path` starts from: what `path` links to, if
+    /// it is a symbolic link.
+    fn resolve_search_dir(path: &Path) -> std::io::Result<PathBuf> {
+        if path.is_symlink() {
+            path.read_link()
+        } else {
+            Ok(path.to_owned())
+        }
+    }
+
     fn subdirs_for_search_dir(
         &self,
         path: PathBuf,
         filter_fn: Option<&Box<dyn Fn(&walkdir::DirEntry, bool) -> bool>>,
     ) -> Vec<PathBuf> {
-        let path = if path.is_symlink() {
-            match path.read_link() {
-                Ok(path) => path,
-                Err(err) => {
-                    if err.kind() != ErrorKind::NotFound {
-                        debug!("Error occurred resolving path {path:?}: {err}");
-                    }
-                    // Despite the failure add the path to the list for logging purposes
-                    return vec![path];
+        let path = match Self::resolve_search_dir(&path) {
+            Ok(path) => path,
+            Err(err) => {
+                if err.kind() != ErrorKind::NotFound {
+                    debug!("Error occurred resolving path {path:?}: {err}");
                 }
+                // Despite the failure add the path to the list for logging purposes
+                return vec![path];
             }
-        } else {
-            path
         };
 
         let mut dirs = Vec::new();
